@@ -61,6 +61,24 @@ def ev_reorg(after_names, poll):
     return ('reorg1' + (':poll' if poll else ''), f)
 
 
+def ev_reorg_renumber(after_names, poll):
+    '''The tip block [cb, t1, t2] is replaced by [cb', t6, t1] + [cb'']: transaction numbers are reused
+    for other transactions, and t2 is unconfirmed again and spends t1 at its new number.'''
+    def f(s):
+        u = mpuniverse.universe()
+        sim = u.sim.copy(b'Y')
+        sim.add_block([sim.cb(), u.txs['t6'], u.txs['t1']], 'confirm')
+        sim.add_block([sim.cb()], 'cb')       # the new branch is longer, so it is noticed
+        s.daemon.add_known(s.x_final_blocks)
+        s.daemon.set_chain(sim.blocks)
+        s.daemon.set_mempool([u.txs[x] for x in mpuniverse.NAMES if x in after_names])
+        s.x_final_names = tuple(after_names)
+        s.x_final_blocks = sim.blocks
+        if poll:
+            s.loop.fire_polling_timer()
+    return ('reorg-renumber' + (':poll' if poll else ''), f)
+
+
 S0S1 = [((), ('t1', 't2', 't3', 't4', 't6', 't7')),
         (('t1',), ('t1', 't2', 't4', 't5')),
         (('t1', 't2', 't4'), ('t1', 't2', 't3', 't4', 't6'))]
@@ -82,7 +100,13 @@ def events_for(s1):
            # the block confirming the spend of a prefix-colliding output (its sibling stays
            # unspent) is flushed while the tx is being fetched
            ('block-t7-poll-flush', lambda: ev_block(('t7',), tuple(x for x in s1 if x != 't7'),
-                                                    True, True))]
+                                                    True, True)),
+           # t1 and t2 confirm, the tracker resolves t3's input against the index; then that
+           # block is replaced by one holding other transactions at the same numbers
+           ('confirm-then-reorg-renumber', lambda: [
+               ev_block(('t1', 't2'), tuple(x for x in s1 if x not in ('t1', 't2')), True),
+               'tick', 'tick',
+               ev_reorg_renumber(tuple(x for x in s1 if x not in ('t1', 't6')), True)])]
     return out
 
 
@@ -169,10 +193,12 @@ def cases_for(tier):
     bound = 1 if tier == 'quick' else 2
     cases = []
     for pair in range(len(S0S1)):
-        for ev in range(9):
+        for ev in range(10):
             if 't7' not in S0S1[pair][1] and ev == 8:
                 continue
-            if tier == 'quick' and pair == 2 and ev not in (3, 4, 6, 7):
+            if ev == 9 and pair != 2:
+                continue
+            if tier == 'quick' and pair == 2 and ev not in (3, 4, 6, 7, 9):
                 continue
             b = bound if (tier == 'quick' or (pair == 1 and ev in (0, 3, 7, 8))) else 1
             n = 2 if b == 1 else 8
